@@ -1517,10 +1517,41 @@ def affected_ops():
     return changed, sorted(seen), ops
 
 
+def list_operands(ctx):
+    """polynomials are values: a LIST handed to the constructor or used as operand is neither changed nor kept (repo fix:
+    gfpx stripped trailing zeros in place and kept the caller's list as internal value)"""
+    from mpyc import gfpx
+    rng = ctx.subrng('list-operands')
+    for p in (2, 3, 5, 101):
+        P = gfpx.GFpX(p)
+        for _ in range(ctx.scale(40, 400)):
+            n = rng.randrange(0, 7)
+            c = [rng.randrange(p) for _ in range(n)] + [0] * rng.randrange(0, 3)
+            keep = list(c)
+            f = P(c)
+            fs = str(f)
+            ops = [lambda: P('x+1') + c, lambda: c + P('x'), lambda: P('x+1') * c, lambda: P('x') == c, lambda: P('x') - c,
+                   lambda: P.gcd(P('x'), c), lambda: divmod(P('x^3+1'), c) if any(c) else None, lambda: P('x') < c]
+            rng.choice(ops)()
+            ctx.case(('list-operand', p, tuple(keep)), nontrivial=n > 0)
+            ctx.count('list-operands')
+            rep = {'kind': 'list-operand', 'p': p, 'list': keep}
+            if c != keep:
+                ctx.violation(f'GFpX({p}): a list used as constructor argument / operand was changed from {keep} to {c}', rep)
+                return
+            if c:
+                c[-1] = (c[-1] + 1) % p
+                c.reverse()
+            if str(f) != fs or f != P(keep):
+                ctx.violation(f'GFpX({p})({keep}) changed from {fs} to {f} when the caller modified its list afterwards', rep)
+                return
+
+
 def run(ctx):
     prepare_driver(ctx)
     jobs = build_jobs(ctx)
     run_jobs(ctx, jobs, __name__)
+    list_operands(ctx)
     ctx.note(f'{len(jobs)} jobs; classes: GFpX(p) for p in 2,3,5,7,11,101,2^61-1 and the generic list code at p=2')
 
 
@@ -1547,6 +1578,10 @@ def search(ctx):
 
 def replay(ctx, data):
     """Re-execute one oracle replay {'function', 'class'|'p', 'args', ...} on the real code."""
+    if data.get('kind') == 'list-operand':
+        c2 = common.Ctx('C23', 'quick', 0)
+        list_operands(c2)
+        return not c2.violations, (c2.violations[0][0] if c2.violations else 'ok: list operands untouched, polynomials independent')
     func = data.get('function')
     if not isinstance(func, str) or func.split(':')[0] not in OPS:
         return False, f'not an executable replay of {__name__} (kind={data.get("kind")!r}); nothing re-executed'
